@@ -31,6 +31,7 @@ def dispatch (op : String) (args : List String) (impl : String) : Verdict :=
   | "hist" => opHist args impl
   | "serde" => opSerde args impl
   | "fragdec" => opFragDec args impl
+  | "fragdecr" => opFragDecr args impl
   | "fragob" => opFragOb args impl
   | "fragenc" => opFragEnc args impl
   | "faults" => opFaults args impl
